@@ -13,7 +13,15 @@ Direct oracle, independent of the Lean *model* (it uses only the Lean *specifica
     information: C15) and always catches up with the daemon again;
   * after a clean shutdown the reopened database is at the daemon's tip and equals the specification.
 The index suite ties the model to BlockProcessor/DB methods called one by one; this suite covers the
-glue that decides *when* they are called."""
+glue that decides *when* they are called.
+
+Correspondence (traced histories: no restarts; every second one with natural and admin reorgs): the
+events of the real task - every advance_block call (connecting or not) with the flush forced after
+it, every end of advance_blocks, every on_caught_up, every reorg_chain with the blocks it actually
+backed out - are replayed on the Lean model EV.SyncLoopT; after every event the three heights and
+BlockProcessor.touched, and at every Notifications.on_block call the height and the touched set
+handed over (sorted hashX numbers, compared as sets), must be the model's (C07carrier: "every
+confirmed change is carried")."""
 import asyncio
 
 from harness import common
@@ -27,10 +35,11 @@ SCRIPTS = NORMAL_SCRIPTS + UNSPENDABLE_SCRIPTS
 
 
 class Hist:
-    def __init__(self, res, seed, idx, tier, forward=False):
+    def __init__(self, res, seed, idx, tier, forward=False, reorgs=False):
         self.res = res
-        self.forward = forward      # extensions and cache pressure only: the trace is replayed on EV.SyncLoop
-        self.rng = rng = rng_for(seed, 'sync-forward' if forward else 'sync', idx)
+        self.forward = forward      # no restarts: the event trace is replayed on EV.SyncLoopT
+        self.with_reorgs = reorgs   # traced history with natural and admin reorgs (else extensions and pressure only)
+        self.rng = rng = rng_for(seed, ('sync-trace-reorg' if reorgs else 'sync-forward') if forward else 'sync', idx)
         self.trace = []             # [line, expected output] pairs for `evdrv syncloop`
         self.pending = None         # the block event whose result has not been sampled yet
         self.tier = tier
@@ -88,55 +97,107 @@ class Hist:
         w.spawn('bp', w.bp.fetch_and_process_blocks(w.caught_up_event, w.shutdown_event))
         w.run(self.d.height())
 
-    # -- event trace of the real task, for the model EV.SyncLoop
+    # -- event trace of the real task, for the model EV.SyncLoopT (EV/Model/SyncLoopT.lean)
     def heights(self):
         w = self.w
         return f'{w.bp.state.height} {w.db.state.height} {w.db.fs_height}'
 
+    @staticmethod
+    def fmt_touched(touched):
+        """A touched set in the model's encoding: hashX as big-endian number, distinct, ascending."""
+        return ' |' + ''.join(f' {x}' for x in sorted({be(h) for h in touched}))
+
     def sample_pending(self):
         if self.pending is not None:
-            bid, dh, arg = self.pending
-            self.trace.append([f'B {bid} {dh} ' + ('-' if arg is None else str(int(arg))), 'ok ' + self.heights()])
+            kind, bid, dh, arg, touched = self.pending
+            a = '-' if arg is None else str(int(arg))
+            line = f'BT {bid} {dh} {a}' if kind == 'B' else f'S {a}'
+            self.trace.append([line, 'ok ' + self.heights() + touched])
             self.pending = None
 
     def install_trace(self):
+        """Events of fetch_and_process_blocks, with what the model must answer: the three heights after
+        every event, BlockProcessor.touched after every event, and at every Notifications.on_block call
+        the height and the touched set handed over."""
         w, hist = self.w, self
         bp = w.bp
-        ctx = {'in': None, 'told': None}
+        ctx = {'in': None, 'told': None, 'handed': None, 'backed': None}
         orig_adv = bp.advance_block
 
         def advance_block(block):
             hist.sample_pending()
             gb = next(b for b in hist.gen.blocks if b.hex_hash == block.hex_hash)
             dh = hist.d.cached_height()
+            before = bp.state.height
             orig_adv(block)
-            hist.pending = [gb.id, dh, None]
+            if bp.state.height == before:
+                # the block does not connect: advance_block has only set reorg_count
+                hist.pending = ['S', None, None, None, hist.fmt_touched(bp.touched)]
+                hist.res.bump('trace_stale_blocks')
+            else:
+                hist.pending = ['B', gb.id, dh, None, hist.fmt_touched(bp.touched)]
         bp.advance_block = advance_block
         orig_flush = bp.flush
 
         async def flush(arg):
-            if ctx['in'] is None and hist.pending is not None and hist.pending[2] is None and not w.shutdown_event.is_set():
-                hist.pending[2] = bool(arg)        # the flush advance_and_maybe_flush performs
+            if ctx['in'] is None and hist.pending is not None and hist.pending[3] is None and not w.shutdown_event.is_set():
+                hist.pending[3] = bool(arg)        # the flush advance_and_maybe_flush performs
             return await orig_flush(arg)
         bp.flush = flush
+        orig_batch = bp.advance_blocks
+
+        async def advance_blocks(hex_hashes):
+            await orig_batch(hex_hashes)
+            hist.sample_pending()
+            hist.trace.append(['E', 'ok ' + hist.heights() + hist.fmt_touched(bp.touched)])
+        bp.advance_blocks = advance_blocks
         orig_cu = bp.on_caught_up
 
         async def on_caught_up():
             hist.sample_pending()
-            ctx['in'], ctx['told'] = 'caught_up', None
+            ctx['in'], ctx['told'], ctx['handed'] = 'caught_up', None, None
             try:
                 await orig_cu()
             finally:
                 ctx['in'] = None
             t = ctx['told']
-            hist.trace.append(['C', (f'told {t} ' if t is not None else 'first ') + hist.heights()])
+            if t is not None:
+                hist.trace.append(['CT', f'told {t} ' + hist.heights() + ctx['handed']])
+                if ctx['handed'] != ' |':
+                    hist.res.bump('trace_told_with_nonempty_touched')
+            else:
+                hist.trace.append(['CT', 'first ' + hist.heights() + hist.fmt_touched(bp.touched)])
         bp.on_caught_up = on_caught_up
         inner = w.notifications.on_block
 
         async def on_block(touched, height):
             ctx['told'] = height
+            ctx['handed'] = hist.fmt_touched(touched)
             await inner(touched, height)
         w.notifications.on_block = on_block
+        orig_backup = bp.backup_block
+
+        def backup_block(block):
+            gb = next(b for b in hist.gen.blocks if b.hex_hash == block.hex_hash)
+            orig_backup(block)
+            if ctx['backed'] is not None:
+                ctx['backed'].append(gb.id)
+        bp.backup_block = backup_block
+        orig_reorg = bp.reorg_chain
+
+        async def reorg_chain(count):
+            hist.sample_pending()
+            ctx['in'], ctx['backed'] = 'reorg', []
+            try:
+                await orig_reorg(count)
+                backed = ctx['backed']
+            finally:
+                ctx['in'], ctx['backed'] = None, None
+            hist.trace.append(['R' + ''.join(f' {i}' for i in backed),
+                               'ok ' + hist.heights() + hist.fmt_touched(bp.touched)])
+            hist.res.bump('trace_reorg_events')
+            hist.res.bump('trace_blocks_backed_out', len(backed))
+        bp.reorg_chain = reorg_chain
 
     def chain_of(self, tip_hash, height):
         tip = next((b for b in self.gen.blocks if b.hash == tip_hash and b.height == height), None)
@@ -224,8 +285,10 @@ class Hist:
     def env_action(self):
         rng, d, w = self.rng, self.d, self.w
         r = rng.random()
-        if self.forward:
+        if self.forward and not self.with_reorgs:
             r = 0.1 if r < 0.5 else 0.7      # extensions and cache pressure only
+        elif self.forward:
+            r = 0.1 if r < 0.4 else 0.4 if r < 0.55 else 0.5 if r < 0.7 else 0.7   # no restarts
         if r < 0.3:
             n = rng.choice([1, 1, 1, 2, 3])
             d.extend(n, max_txs=3)
@@ -381,13 +444,14 @@ class Hist:
 
 
 def compare_trace(res, h, label):
-    """The event trace of the real task, replayed on EV.SyncLoop: told heights and the three heights
-    (block processor, DB state, files) after every event must agree."""
+    """The event trace of the real task, replayed on EV.SyncLoopT: after every event the three heights
+    (block processor, DB state, files) and BlockProcessor.touched, and at every told point the height
+    and the touched set handed to Notifications.on_block (as sets), must agree."""
     lines = [f'CFG {h.act} {h.limit}']
     expect = ['ok']
     sent = set()
     for line, exp in h.trace:
-        if line.startswith('B '):
+        if line.startswith('BT '):
             bid = int(line.split()[1])
             if bid not in sent:
                 sent.add(bid)
@@ -399,11 +463,13 @@ def compare_trace(res, h, label):
     got = run_evdrv('syncloop', lines)
     res.bump('trace_events', len(h.trace))
     res.bump('trace_told_points', sum(1 for _l, e in h.trace if e.startswith('told')))
-    res.bump('trace_blocks_with_forced_flush', sum(1 for l, _e in h.trace if l.startswith('B ') and not l.endswith('-')))
+    res.bump('trace_blocks_with_forced_flush', sum(1 for l, _e in h.trace if l.startswith('BT ') and not l.endswith('-')))
     for i, (e, g) in enumerate(zip(expect, got)):
         if e != g:
             if len(res.disagreements) < 3:
-                res.disagreements.append({'suite': 'sync', 'where': f'{label}: event {lines[i][:40]}', 'tags': ['glue'],
+                kind = 'touched set' if e.split(' |')[0] == g.split(' |')[0] else 'heights / told height'
+                res.disagreements.append({'suite': 'sync', 'where': f'{label}: event {lines[i][:40]} ({kind})',
+                                          'tags': ['glue'] + (['after_backup'] if h.had_reorg else []),
                                           'code': e, 'model': g,
                                           'script': [l[:60] for l in lines[max(0, i - 12):i + 1] if not l.startswith('BLK')]})
             return False
@@ -415,17 +481,22 @@ def run(tier, seed):
     for idx in range({'quick': 80, 'thorough': 1000}[tier]):
         if common.out_of_time():
             break
-        h = Hist(res, seed, idx, tier, forward=True)
+        # every second traced history also has natural and admin reorgs (the model's `reorg` event)
+        h = Hist(res, seed, idx, tier, forward=True, reorgs=bool(idx % 2))
         fails = h.run()
-        res.note_case('F|' + '|'.join(h.events), nontrivial=any('pressure' in e for e in h.events))
-        compare_trace(res, h, f'forward history {idx} (seed {seed})')
+        res.note_case('F|' + '|'.join(h.events), nontrivial=any(('pressure' in e or 'reorg' in e) for e in h.events))
+        if not any(c == 'processing task died' for c, _d, _t in fails):
+            compare_trace(res, h, f'traced history {idx} (seed {seed})')
         for c, dtl, tags in fails[:4]:
             res.violations.append({'suite': 'sync', 'clause': c, 'detail': dtl, 'tags': sorted(set(tags)), 'seed': seed,
-                                   'history': idx, 'forward': True, 'tier': tier, 'events': h.events[-60:]})
+                                   'history': idx, 'forward': True, 'reorgs': bool(idx % 2), 'tier': tier,
+                                   'events': h.events[-60:]})
     res.rule = ('case = generated daemon history (extensions, natural reorgs up to exactly the reorg limit, admin reorgs, '
                 'cache-pressure events requesting history-only or full flushes, clean restarts) run through the real '
                 'fetch_and_process_blocks task under a seeded scheduler; judged at every moment clients are told a height, '
                 'at every catch-up and after the final clean shutdown against the Lean specification of the daemon\'s chain; '
+                'histories without restarts are also replayed event by event on the Lean loop model (heights and touched set '
+                'after every event, height and touched set handed over at every told point); '
                 'non-trivial = the history contains a reorg, a pressure event or a restart')
     n = {'quick': 200, 'thorough': 3000}[tier]
     for idx in range(n):
@@ -441,7 +512,8 @@ def run(tier, seed):
                                    'history': idx, 'tier': tier, 'events': h.events[-60:]})
         if len(res.violations) >= 12:
             break
-    for k in ('told_points', 'env_pressure_history_only', 'env_natural_reorg', 'env_clean_restart', 'reorgs_carried_out'):
+    for k in ('told_points', 'env_pressure_history_only', 'env_natural_reorg', 'env_clean_restart', 'reorgs_carried_out',
+              'trace_told_points', 'trace_told_with_nonempty_touched', 'trace_reorg_events', 'trace_blocks_backed_out'):
         if not res.stats.get(k):
             res.harness_errors.append(f'sync suite never reached: {k}')
     return res
@@ -449,7 +521,8 @@ def run(tier, seed):
 
 def replay(case):
     res = SuiteResult('sync')
-    h = Hist(res, case['seed'], case['history'], case.get('tier', 'quick'), forward=case.get('forward', False))
+    h = Hist(res, case['seed'], case['history'], case.get('tier', 'quick'), forward=case.get('forward', False),
+             reorgs=case.get('reorgs', False))
     return [f'{c}: {d}' for c, d, _t in h.run()]
 
 
